@@ -158,13 +158,20 @@ class C09(Spec):
             res.append(rec)
         return res
 
+    def model_out(self, c, ml):
+        """Model output for the case; when the driver cannot be run the lines say so (the oracle is unaffected)."""
+        try:
+            return self.cache.get(c, self.model_lines)
+        except Exception as e:
+            return [f'no-model ({type(e).__name__})'] * len(ml)
+
     def impl_lines(self, c):
         res = self.run_real(c)
         self._last = (C.case_hash(c), res)
         ml = self.model_lines(c)
         if not ml:
             return []
-        mout = self.cache.get(c, self.model_lines)
+        mout = self.model_out(c, ml)
         plan = S.Plan(c['tree'])
         tol = S.FIR_TOL if S.is_fir(c['tree']) else 0.0
         out, j = [], 0
